@@ -3,6 +3,7 @@ package handlers
 import (
 	"context"
 	"fmt"
+	"runtime"
 	"sort"
 	"strconv"
 	"sync"
@@ -581,6 +582,118 @@ func TestC19Soak(t *testing.T) {
 			hx.Fail(t, ev.Failure{Property: "C19", Signature: "metrics-mismatch-at-end", Clause: "after the session ended the gauges are back to zero and the counters keep their totals", Case: desc, Observed: why})
 		}
 		col.Label("mode:soak")
+		col.Case(true, hx.JSON(desc), func() any { return desc })
+	})
+}
+
+// TestC19Churn: sessions of one shared middleware start and end at the same moment, round
+// after round (a wave hangs up while the next connects); some are cancelled while their
+// client is still pushing REQs. At every quiescent point the connection gauge is the number
+// of live sessions and the subscription gauge the number of subscriptions they hold.
+func TestC19Churn(t *testing.T) {
+	col := ev.For("C19").SetRule(c19Rule)
+	rapid.Check(t, func(t *rapid.T) {
+		reg := prometheus.NewRegistry()
+		mw := mocprom.NewPrometheusMiddleware(reg)
+		h := mocrelay.Middleware(mw)(mocrelay.NewRouterHandler(4)) // subscriptions stay open until CLOSE / the end
+		wave := rapid.IntRange(2, 10).Draw(t, "sessions_per_wave")
+		rounds := rapid.IntRange(100, 600).Draw(t, "rounds")
+		pipelined := rapid.IntRange(0, 32).Draw(t, "reqs_pushed_while_ending")
+		desc := map[string]any{"mode": "churn", "sessions_per_wave": wave, "rounds": rounds, "reqs_pushed_while_ending": pipelined}
+		type live struct {
+			cancel context.CancelFunc
+			recv   chan mocrelay.ClientMsg
+			ret    chan error
+			stop   chan struct{}
+		}
+		start := func() *live {
+			ctx, cancel := context.WithCancel(context.Background())
+			l := &live{cancel: cancel, recv: make(chan mocrelay.ClientMsg), ret: make(chan error, 1), stop: make(chan struct{})}
+			send := make(chan mocrelay.ServerMsg)
+			go func() { l.ret <- h.ServeNostr(ctx, send, l.recv) }()
+			go func() { // the client reads whatever comes
+				for {
+					select {
+					case <-send:
+					case <-l.stop:
+						return
+					}
+				}
+			}()
+			return l
+		}
+		end := func(l *live) {
+			// the client is still sending when the session ends
+			done := make(chan struct{})
+			go func() {
+				defer close(done)
+				for i := 0; i < pipelined; i++ {
+					select {
+					case l.recv <- &mocrelay.ClientReqMsg{SubscriptionID: fmt.Sprint("p", i), ReqFilters: []*mocrelay.ReqFilter{{}}}:
+					case <-time.After(200 * time.Microsecond):
+						return
+					}
+				}
+			}()
+			if pipelined > 0 {
+				runtime.Gosched()
+			}
+			l.cancel()
+			<-l.ret
+			<-done
+			close(l.stop)
+		}
+		gaugesNow := func() (float64, float64) {
+			g, _, _ := gatherProm(reg)
+			return g["mocrelay_connection_count"], g["mocrelay_req_count"]
+		}
+		var cur []*live
+		for r := 0; r < rounds; r++ {
+			// the previous wave hangs up while the next one connects
+			next := make([]*live, wave)
+			var wg sync.WaitGroup
+			gate := make(chan struct{})
+			for i := range next {
+				wg.Add(1)
+				go func(i int) {
+					defer wg.Done()
+					<-gate
+					next[i] = start()
+					// one subscription each, confirmed by a COUNT round trip? no reply is needed:
+					// the REQ is handed over synchronously
+					next[i].recv <- &mocrelay.ClientReqMsg{SubscriptionID: "s", ReqFilters: []*mocrelay.ReqFilter{{}}}
+				}(i)
+			}
+			for _, l := range cur {
+				wg.Add(1)
+				go func(l *live) {
+					defer wg.Done()
+					<-gate
+					end(l)
+				}(l)
+			}
+			close(gate)
+			wg.Wait()
+			cur = next
+			// quiescent once every session's REQ has crossed the middleware: a CLOSE of an unknown
+			// id handed over afterwards is taken only when the REQ before it has been processed
+			for _, l := range cur {
+				l.recv <- &mocrelay.ClientCloseMsg{SubscriptionID: "sync"}
+				l.recv <- &mocrelay.ClientCloseMsg{SubscriptionID: "sync"}
+			}
+			if c, q := gaugesNow(); c != float64(len(cur)) || q != float64(len(cur)) {
+				desc["failed_round"] = r
+				hx.Fail(t, ev.Failure{Property: "C19", Signature: "metrics-mismatch-churn", Clause: "at every quiescent point the connection gauge is the number of live sessions and the subscription gauge the number of subscriptions opened and not yet ended (sessions starting and ending at the same moment)",
+					Case: desc, Observed: fmt.Sprintf("connection gauge %v, subscription gauge %v", c, q), Expected: fmt.Sprintf("%d live sessions with one subscription each", len(cur))})
+			}
+		}
+		for _, l := range cur {
+			end(l)
+		}
+		if c, q := gaugesNow(); c != 0 || q != 0 {
+			hx.Fail(t, ev.Failure{Property: "C19", Signature: "metrics-mismatch-at-end", Clause: "after all sessions ended the gauges are back to zero", Case: desc, Observed: fmt.Sprintf("connection gauge %v, subscription gauge %v", c, q)})
+		}
+		col.Label("mode:churn")
 		col.Case(true, hx.JSON(desc), func() any { return desc })
 	})
 }
